@@ -90,6 +90,7 @@ pub fn dir_case(rng: &mut Rng, cfg: &str, o: &DirOpts, out: &mut Vec<String>) {
         }
     }
     // current values as the generator believes them (for re-submissions)
+    let allow_empty = !o.histories && !o.history_adv && !o.tombstones && !o.lag;
     let mut current: Vec<Option<Vec<u8>>> = vec![None; pool.len()];
     let mut past: Vec<Vec<Vec<u8>>> = vec![vec![]; pool.len()];
     let mut last_update: Vec<usize> = vec![0; pool.len()];
@@ -121,6 +122,10 @@ pub fn dir_case(rng: &mut Rng, cfg: &str, o: &DirOpts, out: &mut Vec<String>) {
                 current[i].clone().unwrap()
             } else if !earlier.is_empty() && rng.chance(1, 6) {
                 earlier[rng.below(earlier.len() as u64) as usize].clone()
+            } else if allow_empty && rng.chance(1, 9) {
+                // the EMPTY value is a legal value (it merely coincides with the tombstone); only in streams that do not
+                // verify histories, whose strict verifier rejects an empty value by design
+                vec![]
             } else {
                 value(rng)
             };
